@@ -127,9 +127,10 @@ SlotErr(t, st, s, e, at) ==
 
 (* ---- one generation: its scheduled slots against the next |slots| log entries ---------------- *)
 (* ms: [st |-> machine state, lp |-> log pointer, err |-> error] *)
+SkipKinds(t) == IF "skip" \in DOMAIN t THEN {t.skip[i] : i \in 1..Len(t.skip)} ELSE {}   \* Graph(skip=[...]): these kinds never execute
 RunGenOn(t, ms, g) ==
   IF ms.err # NoErr THEN ms ELSE
-  LET slots == g.slots
+  LET slots == SelectSeq(g.slots, LAMBDA sl : sl.kind \notin SkipKinds(t))
       n == Len(slots)
       log == t.log
       avail == Len(log) - ms.lp
